@@ -1,0 +1,7 @@
+//go:build verif && (!amd64 || purego || !gc)
+
+package argon2
+
+func VerifCPUHasSSE4() bool { return false }
+
+func VerifSetSSE4(on bool) (prev bool) { return false }
